@@ -154,14 +154,20 @@ def ellipsis_rows(m, a, b, width, align, mode):
     """Ellipsis mode, statement level. A line that fits is rendered as in clip mode. Otherwise the row
     is: a prefix P of the line, an ellipsis mark M, and at most one blank (left over when the next
     character is double-width), P being the longest prefix for which P+M fits (zero-width characters
-    stay with the character they combine with). The blank may be before or after the mark. Such a row
-    is full, so alignment does not move it.
-    Reading adopted: at width 1 there is no room for a character *and* a mark; plain clipping (no mark)
-    is accepted there (with the window placed by the alignment, or at the left) as well as a lone mark."""
+    stay with the character they combine with; zero-width characters at the very start of the line, with
+    nothing to combine with, may be dropped as in clip mode). The blank may be before or after the mark.
+    Such a row is full, so alignment does not move it.
+    Reading adopted: when the width leaves no room for one column of text *and* the encoding's own
+    ellipsis mark (width 1; width 2 in the CJK encodings, whose ellipsis is a two-column character),
+    plain clipping without a mark is accepted too (window placed by the alignment, or at the left)."""
     if m.cols(a, b) <= width:
         return window_rows(m, a, b, width, align)
     out = set()
-    for mark, mw in ellipsis_marks(m.enc, mode):
+    marks = ellipsis_marks(m.enc, mode)
+    lead = a
+    while lead < b and m.width[lead] == 0:
+        lead += 1
+    for mark, mw in marks:
         if mw > width:
             continue
         e = a
@@ -170,10 +176,11 @@ def ellipsis_rows(m, a, b, width, align, mode):
             c += m.width[e]
             e += 1
         blanks = b" " * (width - mw - c)
-        p = m.shown_bytes(a, e)
-        out.add(p + mark + blanks)
-        out.add(p + blanks + mark)
-    if width == 1:
+        for p in {m.shown_bytes(a, e), m.shown_bytes(min(lead, e), e)}:
+            out.add(p + mark + blanks)
+            out.add(p + blanks + mark)
+    own = marks[0][1] if len(marks) == 4 else 1  # the encoding's own ellipsis, else a single dot
+    if width <= own:
         out |= window_rows(m, a, b, width, "left") | window_rows(m, a, b, width, align)
     return out
 
